@@ -83,8 +83,18 @@ class RecordStreamWriter:
         if not self.header_written:
             self.writeheader()
         blob = self.packer.pack(obj)
-        self.fp.write(struct.pack(">I", len(blob)))
-        self.fp.write(blob)
+        self._write_all(struct.pack(">I", len(blob)))
+        self._write_all(blob)
+
+    def _write_all(self, data):
+        # A raw (unbuffered) file object may accept only part of the data, write the remainder as well
+        while data:
+            written = self.fp.write(data)
+            if written is None or written >= len(data):
+                break
+            if written <= 0:
+                raise IOError("Unable to write record data, no progress on {!r}".format(self.fp))
+            data = data[written:]
 
     def writeheader(self):
         self.header_written = True
